@@ -528,7 +528,14 @@ def unit_bounded(U):
                      "%d generated feature lists (<= 8 features, id_spec ['ID','Name'])" % n, cases, fails)
 
 
-UNITS = [("id_handler", unit_id_handler), ("autoid", unit_autoid), ("getitem", unit_getitem), ("bounded", unit_bounded)]
+def unit_default_spec(U):
+    """which id_spec an import runs with when none is given: the default of the importer that is USED ('ID' for the GFF3
+    importer - also when it is forced onto GTF-looking input -, the gene/transcript dict for the GTF importer); shared with C03"""
+    from props import C03
+    C03.unit_route(U, prefix="C04.default_spec")
+
+
+UNITS = [("default_spec", unit_default_spec), ("id_handler", unit_id_handler), ("autoid", unit_autoid), ("getitem", unit_getitem), ("bounded", unit_bounded)]
 
 
 def replay_file(doc):
